@@ -54,7 +54,7 @@ func c05MaxLen(tier string) (a1, a2 int) {
 
 func c05MutUnits(tier string) (units, perUnit, sampledOffsets int) {
 	if tier == "thorough" {
-		return 500, 3, 64
+		return 1000, 4, 64
 	}
 	return 160, 2, 24
 }
@@ -436,7 +436,7 @@ func c05Mutate(c *mon.Ctx, a *c05Agg, r *mon.Rng, base []byte, sampled int) {
 	}
 	// offsets
 	var offs []int
-	if n <= 48 {
+	if n <= 48 || n+1 <= sampled {
 		for i := 0; i <= n; i++ {
 			offs = append(offs, i)
 		}
